@@ -15,6 +15,7 @@ import (
 	"time"
 
 	"verif/mc/explore"
+	"verif/mc/instr"
 	"verif/mc/props"
 	"verif/mc/report"
 )
@@ -68,6 +69,23 @@ func main() {
 		for _, c := range w.Viol {
 			fmt.Printf("  sig=%s expr=%s tree=%s ctx=%s expected=%s got=%s\n", c.Sig, c.Expr, c.TreeS, c.CtxS, c.Expected, c.Got)
 		}
+	case "labels":
+		// mc labels <ID> <tier> <space>: index and label of every item
+		for _, sp := range explore.Lookup(os.Args[2]).Spaces(os.Args[3]) {
+			if sp.Name == os.Args[4] && sp.Label != nil {
+				for i := 0; i < sp.Size; i++ {
+					fmt.Printf("%d\t%s\n", i, sp.Label(i))
+				}
+			}
+		}
+	case "instrument":
+		// mc instrument <repo> <outdir> <shimdir>
+		n, err := instr.Run(os.Args[2], os.Args[3], os.Args[4])
+		if err != nil {
+			fmt.Fprintln(os.Stderr, "instrument:", err)
+			os.Exit(2)
+		}
+		fmt.Printf("instrumented %d statement points\n", n)
 	case "nestcase":
 		d, _ := strconv.Atoi(os.Args[3])
 		props.NestCase(os.Args[2], d)
